@@ -22,7 +22,11 @@ func (vc *VC) operand(fr *Frame, st *State, v ssa.Value) Val {
 	case *ssa.Global:
 		return vc.globalPlace(c)
 	case *ssa.Function:
-		return Val{T: vc.funcConst(c)}
+		f := vc.funcConst(c)
+		if st != nil {
+			vc.assume(st, tNot(tEq(f, vc.zeroOfSort(f.T, nil))))
+		}
+		return Val{T: f}
 	case *ssa.Builtin:
 		return Val{T: vc.declFresh("builtin", vc.opaqueSort("Fn"))}
 	case *ssa.FreeVar:
@@ -272,6 +276,7 @@ func (vc *VC) instr(fr *Frame, st *State, ins ssa.Instruction) {
 	case *ssa.MakeClosure:
 		// closure value: opaque function value; bindings are remembered for inlining
 		t := vc.declFresh("closure", vc.opaqueSort("Fn"))
+		vc.assume(st, tNot(tEq(t, vc.zeroOfSort(t.T, nil))))
 		vc.closures[t.S] = x
 		var bs []Val
 		for _, b := range x.Bindings {
